@@ -96,7 +96,8 @@ func (v *verdict) differ(format string, a ...interface{}) {
 
 // what the code's registry says about a type code
 type typeView struct {
-	scalarOk, moduleOk, named bool
+	scalarOk, moduleOk, named bool // a value was returned for some probe argument
+	scalarAll, moduleAll      bool // ... for every probe argument
 	name                      string
 	roundTrip                 bool // named and ActivationTypeFromName(name) == t
 	panicked                  string
@@ -106,10 +107,19 @@ func viewType(t neatmath.NodeActivationType) typeView {
 	var tv typeView
 	a := neatmath.NodeActivators
 	tv.panicked = vhu.Guard(func() {
-		_, err := a.ActivateByType(0.5, nil, t)
-		tv.scalarOk = err == nil
-		_, err = a.ActivateModuleByType([]float64{1, 2}, nil, t)
-		tv.moduleOk = err == nil
+		// "a value instead of an error" for ANY argument counts: the lookup must not depend on the argument (inputs of several
+		// magnitudes, vectors of one, two and three members)
+		tv.scalarAll, tv.moduleAll = true, true
+		for _, x := range []float64{0.5, 0, -3, 1e300} {
+			_, err := a.ActivateByType(x, nil, t)
+			tv.scalarOk = tv.scalarOk || err == nil
+			tv.scalarAll = tv.scalarAll && err == nil
+		}
+		for _, xs := range [][]float64{{1, 2}, {7}, {3, -1, 4}} {
+			_, err := a.ActivateModuleByType(xs, nil, t)
+			tv.moduleOk = tv.moduleOk || err == nil
+			tv.moduleAll = tv.moduleAll && err == nil
+		}
 		n, err := a.ActivationNameFromType(t)
 		tv.named = err == nil
 		if tv.named {
@@ -127,7 +137,7 @@ func (tv typeView) consistent() bool { return tv.named && tv.roundTrip && tv.sca
 func checkByType(c *activCase, v *verdict) {
 	t := neatmath.NodeActivationType(c.T)
 	tv := viewType(t)
-	v.evals += 4
+	v.evals += 9
 	if tv.panicked != "" {
 		v.fail("lookup of type %d panicked: %s", c.T, tv.panicked)
 		return
@@ -148,10 +158,10 @@ func checkByType(c *activCase, v *verdict) {
 		if c.Module && tv.scalarOk {
 			v.fail("ActivateByType(%d %s) returned a value for a module activation type (error expected)", c.T, c.Name)
 		}
-		if c.Scalar && !tv.scalarOk {
+		if c.Scalar && !tv.scalarAll {
 			v.differ("ActivateByType(%d %s) returned an error; the specification has a scalar function there", c.T, c.Name)
 		}
-		if c.Module && !tv.moduleOk {
+		if c.Module && !tv.moduleAll {
 			v.differ("ActivateModuleByType(%d %s) returned an error; the specification has a module function there", c.T, c.Name)
 		}
 	case specKnown && !tv.named:
